@@ -250,12 +250,18 @@ def result_is_ok(ex, st, info, args):
 
 @B.path('Option::is_some')
 def option_is_some(ex, st, info, args):
-    return deref_all(ex, st, args[0]).variant == 'Some'
+    o = deref_all(ex, st, args[0])
+    if o.variant is None:
+        return mk_bool(o.discr == z3.BitVecVal(1, 64))
+    return o.variant == 'Some'
 
 
 @B.path('Option::is_none')
 def option_is_none(ex, st, info, args):
-    return deref_all(ex, st, args[0]).variant == 'None'
+    o = deref_all(ex, st, args[0])
+    if o.variant is None:
+        return mk_bool(o.discr == z3.BitVecVal(0, 64))
+    return o.variant == 'None'
 
 
 @B.path('Result::map_err')
@@ -305,7 +311,12 @@ def option_as_ref(ex, st, info, args):
     v = ex.read_ref(st, r)
     if v.variant == 'None':
         return NONE
-    return mk_some(Ref(r.base, r.projs + (('downcast', 'Some'), ('field', 0, '?')), r.mut))
+    inner = Ref(r.base, r.projs + (('downcast', 'Some'), ('field', 0, '?')), r.mut)
+    if v.variant is None:
+        if not v.f:
+            return NONE
+        return Enum('Option', None, (inner,), discr=v.discr)
+    return mk_some(inner)
 
 
 def call_fn(f, argv, k):
@@ -346,6 +357,14 @@ def eq_values(ex, st, a, b, k):
         name = ex.prog.find_method(a.ty, 'PartialEq', 'eq')
         if name is not None:
             return Call(ex.prog.items[name], [Ref(('V', a)), Ref(('V', b))], k)
+    if isinstance(a, Enum) and isinstance(b, Enum) and a.ty == 'Option' and (a.variant is None or b.variant is None):
+        da, db = opt_discr(a), opt_discr(b)
+        same = mk_bool(da == db)
+        if a.f and b.f:
+            both_some = mk_bool(z3.And(da == z3.BitVecVal(1, 64), db == z3.BitVecVal(1, 64)))
+            return eq_values(ex, st, a.f[0], b.f[0],
+                             lambda st2, r: k(st2, b_and(same, b_or(b_not(both_some), r))))
+        return k(st, same)
     if isinstance(a, Enum) and isinstance(b, Enum):
         if a.variant is None or b.variant is None:
             return k(st, ex.binop(st, 'Eq', a, b))
